@@ -585,6 +585,114 @@ def _dispatch(model, rep):
        cf.lineno, path)
 
 
+def _predicates(model, rep):
+    """callable selectors and tagging: midpoints of the right entities,
+    optional restriction to the boundary, names stored as given"""
+    R4 = "C07-R4"
+    mcls = model.cls("skfem.mesh.mesh", "Mesh")
+    path = mcls.path
+
+    class T(tuple):
+        skv_isarray = True
+
+        def skv_getattr(self, name):
+            if name == "astype":
+                return PyFunc(lambda a, k, n: self)
+            if name == "mean":
+                def mean(a, k, n):
+                    ax = k.get("axis", a[0] if a else None)
+                    return T(("mean", ax, self))
+                return PyFunc(mean)
+            raise Unsupported(f"attribute {name}")
+
+    class P:
+        skv_isarray = True
+
+        def skv_getitem(self, ix):
+            return T(("gather", ix[1]))
+
+    def hook(interp, name, args, kwargs, node):
+        if name == "numpy.nonzero":
+            return [T(("nonzero", args[0]))]
+        if name == "numpy.intersect1d":
+            return T(("isect", args[0], args[1]))
+        if name == "dataclasses.replace":
+            return ("replaced", kwargs)
+        return NotImplemented
+    test = PyFunc(lambda a, k, n: T(("test", a[0])))
+    pts = P()
+
+    def mk():
+        return Obj(mcls, {"p": pts, "facets": "FACETS", "t": "CELLS",
+                          "boundary_facets": PyFunc(lambda a, k, n: "BF"),
+                          "boundary_nodes": PyFunc(lambda a, k, n: "BN")})
+    cases = [("facets_satisfying", "FACETS", "BF"),
+             ("elements_satisfying", "CELLS", None),
+             ("nodes_satisfying", None, "BN")]
+    for meth, table, bnd in cases:
+        fn = mcls.methods[meth]
+        for bo in ((False, True) if bnd else (False,)):
+            kw = {"boundaries_only": True} if bo else {}
+            try:
+                r = Interp(model, call_hook=hook).call(fn, [test], kw,
+                                                       self_obj=mk())
+            except (Unsupported, Raised) as e:
+                raise AnalysisError(f"Mesh.{meth}: {e}")
+            arg = T(("mean", 1, T(("gather", table)))) if table else pts
+            want = T(("nonzero", T(("test", arg))))
+            if bo:
+                want = T(("isect", want, bnd))
+            ok = (r == want) if table else (
+                r == want or (not bo and isinstance(r, tuple)
+                              and r[0] == "nonzero"
+                              and r[1] == ("test", pts)))
+            if not table:
+                # nodes: the test receives the point array itself
+                core = r[1] if bo and isinstance(r, tuple) and \
+                    r[0] == "isect" else r
+                ok = (isinstance(core, tuple) and core[0] == "nonzero"
+                      and isinstance(core[1], tuple) and core[1][0] == "test"
+                      and core[1][1] is pts
+                      and (not bo or (r[0] == "isect" and r[2] == bnd)))
+            cons = f"Mesh.{meth}[{'boundary only' if bo else 'all'}]"
+            _v(rep, R4, ok, cons,
+               ("entities whose midpoint satisfies the predicate"
+                if table else "vertices satisfying the predicate")
+               + (", intersected with the boundary set" if bo else ""),
+               f"Mesh.{meth}",
+               f"a predicate selects {r!r}: it must be evaluated at the "
+               f"midpoints of the {'facets' if meth[0] == 'f' else 'cells' if table else 'vertices'}"
+               f" (mean over the entity's vertices)"
+               + (" and then be restricted to the boundary" if bo else ""),
+               fn.lineno, path)
+    # tagging keeps index arrays as given, evaluates predicates, and merges
+    for meth, field, finder in (("with_boundaries", "_boundaries",
+                                 "facets_satisfying"),
+                                ("with_subdomains", "_subdomains",
+                                 "elements_satisfying")):
+        fn = mcls.methods[meth]
+        obj = Obj(mcls, {field: {"old": "OLD", "b": "STALE"},
+                         finder: PyFunc(lambda a, k, n: ("found", a, k))})
+        try:
+            r = Interp(model, call_hook=hook).call(
+                fn, [{"a": "ARRAY", "b": test}], {}, self_obj=obj)
+        except (Unsupported, Raised) as e:
+            raise AnalysisError(f"Mesh.{meth}: {e}")
+        tags = r[1].get(field) if isinstance(r, tuple) and \
+            r[0] == "replaced" else None
+        ok = (isinstance(tags, dict) and tags.get("old") == "OLD"
+              and tags.get("a") == "ARRAY"
+              and isinstance(tags.get("b"), tuple)
+              and tags["b"][0] == "found" and tags["b"][1][0] is test
+              and list(r[1]) == [field])
+        _v(rep, R4, ok, f"Mesh.{meth}",
+           "existing names kept, index arrays stored as given, predicates "
+           "resolved through the midpoint query, new names override old "
+           "ones", f"Mesh.{meth}",
+           f"tagging produces {tags!r}: index arrays must be stored "
+           f"unchanged and predicates resolved by {finder}", fn.lineno, path)
+
+
 def run(model: Model, rep, tier: str) -> None:
     rep.rule("C07-R1", "index sets derive from a table of their own kind / "
              "the argument; kinds without DOFs and interior DOFs of facet "
@@ -599,6 +707,7 @@ def run(model: Model, rep, tier: str) -> None:
     _names_to_rows(model, rep)
     _view_methods(model, rep)
     _dispatch(model, rep)
+    _predicates(model, rep)
     rep.require_min("C07-R1", 150)
     rep.require_min("C07-R2", 50)
     rep.require_min("C07-R3", 8)
@@ -694,6 +803,20 @@ MUTANTS = [
      (_M, "            # Default behavior.\n            return "
       "self.boundary_facets()", "            # Default behavior.\n"
       "            return np.arange(self.nfacets)"), "C07-R4"),
+    ("facet predicate evaluated at the first vertex instead of the "
+     "midpoint",
+     (_M, "        midp = self.p[:, self.facets].mean(axis=1)\n        "
+      "facets = np.nonzero(test(midp))[0].astype(np.int32)",
+      "        midp = self.p[:, self.facets[0]]\n        facets = "
+      "np.nonzero(test(midp))[0].astype(np.int32)"), "C07-R4"),
+    ("boundaries_only ignored for facet predicates",
+     (_M, "        if boundaries_only:\n            facets = "
+      "np.intersect1d(facets, self.boundary_facets())",
+      "        if boundaries_only and normal is not None:\n            "
+      "facets = np.intersect1d(facets, self.boundary_facets())"), None),
+    ("with_subdomains resolves predicates on facets",
+     (_M, "                **{name: (self.elements_satisfying(test)",
+      "                **{name: (self.facets_satisfying(test)"), "C07-R4"),
     ("unknown boundary name silently selects nothing",
      (_M, "                raise ValueError(\"Boundary '{}' not found.\"."
       "format(facets))", "                return np.array([], "
